@@ -203,7 +203,7 @@ func (g G) refAddr(simple bool) string {
 		if simple {
 			return "local." + n
 		}
-		return "self" + Pick(g, []string{"", ".name", ".size", ".ami", ".disk", ".host", ".disk[0].gb", ".disk[1].path", ".meta.k", ".meta.flag", ".conn.host", ".tags[\"k\"]"})
+		return "self" + Pick(g, []string{"", ".name", ".size", ".ami", ".disk", ".host", ".disk[0].gb", ".disk[1].path", ".meta.k", ".meta.flag", ".conn.host", ".tags[\"k\"]", ".any.k.y", ".any.k.z", ".any.k"})
 	case 7:
 		return "var." + n + Pick(g, []string{".k", "[0]", `["k"]`})
 	case 8:
@@ -318,6 +318,11 @@ func (g G) refConfig(root m.BodyM, paths []string, pi int, simple bool) string {
 			case "size":
 				fmt.Fprintf(&sb, "  size = %s%s", Pick(g, []string{"1", g.refExpr(simple)}), nl)
 			default:
+				if an == "any" && !simple && g.Chance(30) {
+					// a literal nested two levels deep, with siblings on the inner level
+					fmt.Fprintf(&sb, "  any = { k = { y = 1, z = true }, n = \"s\" }%s", nl)
+					continue
+				}
 				fmt.Fprintf(&sb, "  %s = %s%s", an, Pick(g, []string{`"lit"`, g.refExpr(simple), g.refExpr(simple)}), nl)
 			}
 		}
